@@ -1,0 +1,264 @@
+//go:build verif
+
+package ucfg
+
+import (
+	"fmt"
+	"reflect"
+	"sort"
+	"strings"
+)
+
+// VerifNode describes one stored value of a Config without evaluating it.
+// It exists only in builds tagged 'verif' and is used by external
+// verification harnesses.
+type VerifNode struct {
+	Kind     string // bool, int, uint, float, string, nil, sub, dyn
+	Prim     string // rendering of a primitive payload or of the expression
+	Field    string // name or index the value is stored under (ctx.field)
+	Parent   uintptr
+	Source   string
+	Self     uintptr // *Config for sub nodes
+	FieldsAt uintptr // *fields for sub nodes
+	DictAt   uintptr // address of the dictionary map
+	ArrAt    uintptr // address of the array backing store
+	Names    []string
+	Dict     []VerifNode // same order as Names
+	Arr      []VerifNode
+}
+
+// VerifSnapshot walks the stored tree of c.
+func VerifSnapshot(c *Config) VerifNode {
+	return verifSub(c)
+}
+
+func verifParent(ctx context) uintptr {
+	if ctx.parent == nil {
+		return 0
+	}
+	if sub, ok := ctx.parent.(cfgSub); ok {
+		return reflect.ValueOf(sub.c).Pointer()
+	}
+	return ^uintptr(0)
+}
+
+func verifSub(c *Config) VerifNode {
+	n := VerifNode{Kind: "sub", Field: c.ctx.field, Parent: verifParent(c.ctx), Self: reflect.ValueOf(c).Pointer()}
+	if c.metadata != nil {
+		n.Source = c.metadata.Source
+	}
+	if c.fields == nil {
+		return n
+	}
+	n.FieldsAt = reflect.ValueOf(c.fields).Pointer()
+	if c.fields.d != nil {
+		n.DictAt = reflect.ValueOf(c.fields.d).Pointer()
+	}
+	if cap(c.fields.a) > 0 {
+		n.ArrAt = reflect.ValueOf(c.fields.a).Pointer()
+	}
+	for name := range c.fields.d {
+		n.Names = append(n.Names, name)
+	}
+	sort.Strings(n.Names)
+	for _, name := range n.Names {
+		n.Dict = append(n.Dict, verifValue(c.fields.d[name]))
+	}
+	for _, v := range c.fields.a {
+		n.Arr = append(n.Arr, verifValue(v))
+	}
+	return n
+}
+
+func verifValue(v value) VerifNode {
+	if v == nil {
+		return VerifNode{Kind: "<nil interface>"}
+	}
+	if sub, ok := v.(cfgSub); ok {
+		return verifSub(sub.c)
+	}
+	ctx := v.Context()
+	n := VerifNode{Field: ctx.field, Parent: verifParent(ctx)}
+	if m := v.meta(); m != nil {
+		n.Source = m.Source
+	}
+	switch t := v.(type) {
+	case *cfgBool:
+		n.Kind, n.Prim = "bool", fmt.Sprint(t.b)
+	case *cfgInt:
+		n.Kind, n.Prim = "int", fmt.Sprint(t.i)
+	case *cfgUint:
+		n.Kind, n.Prim = "uint", fmt.Sprint(t.u)
+	case *cfgFloat:
+		n.Kind, n.Prim = "float", fmt.Sprintf("%x", t.f)
+	case *cfgString:
+		n.Kind, n.Prim = "string", t.s
+	case *cfgNil:
+		n.Kind = "nil"
+	case *cfgDynamic:
+		n.Kind = "dyn"
+		switch d := t.dyn.(type) {
+		case spliceDynValue:
+			n.Prim = fmt.Sprintf("%#v", d.e)
+		default:
+			n.Prim = t.dyn.String()
+		}
+	default:
+		n.Kind = fmt.Sprintf("%T", v)
+	}
+	return n
+}
+
+// VerifFingerprint renders the snapshot of c. With addrs the identity of
+// every node (addresses) is included, otherwise only structure, names,
+// payloads and expressions are.
+func VerifFingerprint(c *Config, addrs bool) string {
+	var b strings.Builder
+	verifRender(&b, VerifSnapshot(c), addrs, 0)
+	return b.String()
+}
+
+func verifRender(b *strings.Builder, n VerifNode, addrs bool, depth int) {
+	ind := strings.Repeat(" ", depth)
+	fmt.Fprintf(b, "%s%s field=%q prim=%q src=%q", ind, n.Kind, n.Field, n.Prim, n.Source)
+	if addrs {
+		fmt.Fprintf(b, " self=%x parent=%x fields=%x dict=%x arr=%x", n.Self, n.Parent, n.FieldsAt, n.DictAt, n.ArrAt)
+	}
+	b.WriteByte('\n')
+	for i, name := range n.Names {
+		fmt.Fprintf(b, "%s .%s:\n", ind, name)
+		verifRender(b, n.Dict[i], addrs, depth+2)
+	}
+	for i, e := range n.Arr {
+		fmt.Fprintf(b, "%s [%d]:\n", ind, i)
+		verifRender(b, e, addrs, depth+2)
+	}
+}
+
+// VerifAddrs collects the addresses of all configs, field tables, dictionaries
+// and array backing stores reachable from c.
+func VerifAddrs(c *Config) map[uintptr]string {
+	out := map[uintptr]string{}
+	var walk func(n VerifNode)
+	walk = func(n VerifNode) {
+		if n.Kind == "sub" {
+			for what, a := range map[string]uintptr{"config": n.Self, "fields": n.FieldsAt, "dict": n.DictAt, "arr": n.ArrAt} {
+				if a != 0 {
+					out[a] = what
+				}
+			}
+		}
+		for _, c := range n.Dict {
+			walk(c)
+		}
+		for _, c := range n.Arr {
+			walk(c)
+		}
+	}
+	walk(VerifSnapshot(c))
+	return out
+}
+
+// VerifDeepHash renders everything reachable from c (every field of every
+// struct, exported or not) by reflection, independent of the names used in
+// this package. Any write to state reachable from c changes the result.
+func VerifDeepHash(c *Config) string {
+	var b strings.Builder
+	seen := map[uintptr]int{}
+	verifDeep(&b, reflect.ValueOf(c), seen)
+	return b.String()
+}
+
+func verifDeep(b *strings.Builder, v reflect.Value, seen map[uintptr]int) {
+	switch v.Kind() {
+	case reflect.Invalid:
+		b.WriteString("<invalid>")
+	case reflect.Ptr:
+		if v.IsNil() {
+			b.WriteString("nil")
+			return
+		}
+		p := v.Pointer()
+		if id, ok := seen[p]; ok {
+			fmt.Fprintf(b, "@%d", id)
+			return
+		}
+		seen[p] = len(seen)
+		fmt.Fprintf(b, "&%d(", seen[p])
+		verifDeep(b, v.Elem(), seen)
+		b.WriteString(")")
+	case reflect.Interface:
+		if v.IsNil() {
+			b.WriteString("nil")
+			return
+		}
+		fmt.Fprintf(b, "%s:", v.Elem().Type())
+		verifDeep(b, v.Elem(), seen)
+	case reflect.Struct:
+		b.WriteString("{")
+		for i := 0; i < v.NumField(); i++ {
+			fmt.Fprintf(b, "%s=", v.Type().Field(i).Name)
+			verifDeep(b, v.Field(i), seen)
+			b.WriteString(";")
+		}
+		b.WriteString("}")
+	case reflect.Map:
+		if v.IsNil() {
+			b.WriteString("nilmap")
+			return
+		}
+		fmt.Fprintf(b, "map@%x[", v.Pointer())
+		// visit the entries in a deterministic order, as the ids handed out to
+		// pointers depend on the order of traversal
+		type kvp struct {
+			k string
+			v reflect.Value
+		}
+		var entries []kvp
+		iter := v.MapRange()
+		for iter.Next() {
+			var kb strings.Builder
+			verifDeep(&kb, iter.Key(), map[uintptr]int{})
+			entries = append(entries, kvp{kb.String(), iter.Value()})
+		}
+		sort.Slice(entries, func(i, j int) bool { return entries[i].k < entries[j].k })
+		for _, e := range entries {
+			b.WriteString(e.k + "->")
+			verifDeep(b, e.v, seen)
+			b.WriteString(",")
+		}
+		b.WriteString("]")
+	case reflect.Slice:
+		if v.IsNil() {
+			b.WriteString("nilslice")
+			return
+		}
+		fmt.Fprintf(b, "slice@%x/%d/%d[", v.Pointer(), v.Len(), v.Cap())
+		for i := 0; i < v.Len(); i++ {
+			verifDeep(b, v.Index(i), seen)
+			b.WriteString(",")
+		}
+		b.WriteString("]")
+	case reflect.Array:
+		b.WriteString("[")
+		for i := 0; i < v.Len(); i++ {
+			verifDeep(b, v.Index(i), seen)
+			b.WriteString(",")
+		}
+		b.WriteString("]")
+	case reflect.Bool:
+		fmt.Fprint(b, v.Bool())
+	case reflect.Int, reflect.Int8, reflect.Int16, reflect.Int32, reflect.Int64:
+		fmt.Fprint(b, v.Int())
+	case reflect.Uint, reflect.Uint8, reflect.Uint16, reflect.Uint32, reflect.Uint64, reflect.Uintptr:
+		fmt.Fprint(b, v.Uint())
+	case reflect.Float32, reflect.Float64:
+		fmt.Fprintf(b, "%x", v.Float())
+	case reflect.String:
+		fmt.Fprintf(b, "%q", v.String())
+	case reflect.Func, reflect.Chan, reflect.UnsafePointer:
+		fmt.Fprintf(b, "%s@%x", v.Kind(), v.Pointer())
+	default:
+		fmt.Fprintf(b, "<%s>", v.Kind())
+	}
+}
